@@ -423,8 +423,6 @@ class Parser:
 
                 elements.insert(0, con)
 
-            elements.reverse()
-
             return Series(elements)
 
         opening: Type[Token]
